@@ -41,7 +41,10 @@ class Filter {
     if (variant_ == true)  // "true" means "allow recursively"
       return *this;
     JsonVariantConst member = variant_[key];
-    return Filter(member.isNull() ? variant_["*"] : member);
+    // the wildcard stands for member names only, not for array indexes
+    if (member.isNull() && !detail::is_integral<TKey>::value)
+      member = variant_["*"];
+    return Filter(member);
   }
 
  private:
